@@ -28,7 +28,10 @@ PREAMBLE = ("From H2V Require Import Base.Tac Base.Bytes Gen.FrameConsts Ref.Rfc
             "Definition w7 (x : int) : list N := let v := Z.to_N (Uint63.to_Z x) in\n"
             "  [(v / 281474976710656) mod 256; (v / 1099511627776) mod 256; (v / 4294967296) mod 256;\n"
             "   (v / 16777216) mod 256; (v / 65536) mod 256; (v / 256) mod 256; v mod 256].\n"
-            "Definition unpack (len : N) (ws : list int) : list N := firstn (N.to_nat len) (flat_map w7 ws).")
+            "Definition unpack (len : N) (ws : list int) : list N := firstn (N.to_nat len) (flat_map w7 ws).\n"
+            "Definition both_read c := check_read c && oracle_read c.\n"
+            "Definition both_serialize c := check_serialize c && oracle_serialize c.\n"
+            "Definition both_write c := check_write c && oracle_write c.")
 CORPUS = os.path.join(common.VERIF, "corpus", "framecodec")
 
 # documented single-frame differences between h2 and the RFC grammar (FrameCodec.v `deviation`);
@@ -176,6 +179,8 @@ TERM = {"parse": read_case_term, "malformed": read_case_term, "readchunk": read_
         "serialize": serialize_case_term, "writechunk": write_case_term, "replay_write": write_case_term}
 CHECK = {"parse": "check_read", "malformed": "check_read", "readchunk": "check_read", "replay_read": "check_read",
          "serialize": "check_serialize", "writechunk": "check_write", "replay_write": "check_write"}
+BOTH = {"parse": "both_read", "malformed": "both_read", "readchunk": "both_read", "replay_read": "both_read",
+        "serialize": "both_serialize", "writechunk": "both_write", "replay_write": "both_write"}
 ORACLE = {"parse": "oracle_read", "malformed": "oracle_read", "readchunk": "oracle_read", "replay_read": "oracle_read",
           "serialize": "oracle_serialize", "writechunk": "oracle_write", "replay_write": "oracle_write"}
 
@@ -239,7 +244,7 @@ def eval_bool(tag, fn_by_mode, cases):
     for fn, idx in by_fn.items():
         terms = [TERM[cases[i]["mode"]](cases[i]) for i in idx]
         # Coq's parser is the bottleneck: small shards keep all cores busy
-        per = max(6, min(40, len(terms) // (2 * common.NPROC) + 1))
+        per = max(8, len(terms) // common.NPROC + 1)
         bad, err = common.coq_eval_failing(re.sub(r"\W", "_", "%s_%s" % (tag, fn)), PREAMBLE, fn, terms, shard=per)
         if err:
             errs = (errs or "") + err
@@ -346,22 +351,40 @@ def generate(tier, seed, salt=0):
 READ_MODES = ("parse", "malformed", "readchunk", "replay_read")
 
 
+_CACHE = {}
+
+
+def evaluate(tag, cases):
+    """One pass of `check && oracle` over all cases (the octets of a case are parsed by Coq once); the few cases
+    that fail are then looked at separately.  Returns (check_failing, oracle_failing, out_of_model, error_log)."""
+    both_bad, err = eval_bool(tag, BOTH, cases)
+    sub = [cases[i] for i in both_bad]
+    chk = orc = oom = []
+    if sub:
+        c_bad, e1 = eval_bool(tag + "_c", CHECK, sub)
+        o_bad, e2 = eval_bool(tag + "_o", ORACLE, sub)
+        err = (err or "") + (e1 or "") + (e2 or "") or None
+        chk = [both_bad[j] for j in c_bad]
+        orc = [both_bad[j] for j in o_bad]
+        # a read case whose header block leaves the modelled HPACK fragment (the model says EvUnsupported) is
+        # not a disagreement: it is outside the domain of this correspondence
+        fr = [i for i in chk if cases[i]["mode"] in READ_MODES]
+        if fr:
+            unsup, _ = eval_bool(tag + "_s", {m: "read_supported" for m in TERM}, [cases[i] for i in fr])
+            oom = [fr[j] for j in unsup]
+            chk = [i for i in chk if i not in set(oom)]
+    return chk, orc, oom, err
+
+
 def correspond_framecodec(rep, tier, seed):
     cases = load_corpus()
     ncorpus = len(cases)
     gen, dist = generate(tier, seed)
     cases.extend(gen)
-    failing, err = eval_bool("framecodec", CHECK, cases)
+    failing, oracle_bad, out_of_model, err = evaluate("framecodec", cases)
+    _CACHE["cases"], _CACHE["oracle_bad"] = cases, oracle_bad
     if err:
         rep.violation("broken-correspondence", {"what": "coqc failed on generated cases", "log": err[-3000:]}, no_input=True)
-    # a read case whose header block leaves the modelled HPACK fragment (the model says EvUnsupported)
-    # is not a disagreement: it is outside the domain of this correspondence
-    out_of_model = []
-    fr = [i for i in failing if cases[i]["mode"] in READ_MODES]
-    if fr:
-        unsup, err2 = eval_bool("framecodec_sup", {m: "read_supported" for m in TERM}, [cases[i] for i in fr])
-        out_of_model = [fr[j] for j in unsup]
-        failing = [i for i in failing if i not in set(out_of_model)]
     counts = {}
     for c in cases:
         counts[c["mode"]] = counts.get(c["mode"], 0) + 1
@@ -374,9 +397,10 @@ def correspond_framecodec(rep, tier, seed):
                 "CONTINUATION runs cut anywhere) under whole / byte-at-a-time / random chunkings with Pending between "
                 "reads; malformed: 30 classes of broken streams; serialize/writechunk: h2::frame values through "
                 "Codec::{poll_ready,buffer,flush} over scripted partial writes (vectored and not), several "
-                "max_send_frame_size values.  Non-trivial = at least one event / octet produced.  The model is "
-                "evaluated inside Coq (check_read / check_serialize / check_write).  out_of_model = header blocks "
-                "outside the literal HPACK fragment (only reachable by the bit-flip mutation)."})
+                "max_send_frame_size values; corpus: /verif/corpus/framecodec (inputs, re-run on the current tree).  "
+                "Non-trivial = at least one event / octet produced.  The model is evaluated inside Coq (check_read / "
+                "check_serialize / check_write).  out_of_model = header blocks outside the literal HPACK fragment "
+                "(only reachable by the bit-flip mutation)."})
     if len(out_of_model) * 20 > len(cases):
         rep.violation("broken-correspondence", {"what": "more than 5% of the cases fall outside the modelled HPACK fragment",
                                                 "out_of_model": len(out_of_model)}, no_input=True)
@@ -416,6 +440,29 @@ def report_violation(rep, c):
     rep.violation("failing-input", payload)
 
 
+def py_deviations(c):
+    """Which documented single-frame deviations occur in the octets of a read case (informational tagging;
+    the decision whether something is a violation is taken by the Coq oracle, which knows them too)."""
+    out, bs, i = set(), c["bytes"], 0
+    while i + 9 <= len(bs):
+        ln = (bs[i] << 16) | (bs[i + 1] << 8) | bs[i + 2]
+        if ln > c["max_frame"] or i + 9 + ln > len(bs):
+            break
+        ty, fl = bs[i + 3], bs[i + 4]
+        sid = ((bs[i + 5] & 0x7f) << 24) | (bs[i + 6] << 16) | (bs[i + 7] << 8) | bs[i + 8]
+        p = bs[i + 9:i + 9 + ln]
+        if ty == 5 and sid != 0:
+            padded = bool(fl & 8)
+            if ln == (5 if padded else 4) and (not padded or p[0] == 0):
+                out.add(1)
+        if ty == 7 and sid != 0 and ln >= 8:
+            out.add(2)
+        if ty == 3 and sid == 0 and ln == 4:
+            out.add(3)
+        i += 9 + ln
+    return out
+
+
 def search_framecodec(rep, tier, seed, cases=None):
     """Oracle = reference parser / serialiser evaluated in Coq on the implementation's input/output:
        read side : every event the implementation produced agrees with the RFC grammar applied to the same octets
@@ -424,9 +471,14 @@ def search_framecodec(rep, tier, seed, cases=None):
        write side: the octets accepted by the transport parse (reference parser) back to the frames that were
                    buffered, in order, nothing duplicated / dropped / reordered, a prefix when the transport stopped,
                    and no payload is longer than max_send_frame_size."""
-    if cases is None:
-        cases, _ = generate(tier, seed, salt=7919)
-    bad, err = eval_bool("framecodec_oracle", ORACLE, cases)
+    if cases is None and tier == "quick" and _CACHE.get("cases") is not None:
+        cases = _CACHE["cases"]                 # the quick tier looks at the cases of the correspondence run
+    if cases is not None and cases is _CACHE.get("cases"):
+        bad, err = list(_CACHE["oracle_bad"]), None
+    else:
+        if cases is None:
+            cases, _ = generate(tier, seed, salt=7919)
+        bad, err = eval_bool("framecodec_oracle", ORACLE, cases)
     if err:
         rep.violation("broken-correspondence", {"what": "coqc failed on the oracle", "log": err[-3000:]}, no_input=True)
     bad = set(bad)
@@ -443,15 +495,12 @@ def search_framecodec(rep, tier, seed, cases=None):
                 chunk_bad.append(i)
     # documented deviations are known findings, not violations
     known = {}
-    read_cases = [i for i, c in enumerate(cases) if c["mode"] in READ_MODES]
-    anyhit, _ = eval_bool("framecodec_known0", {m: "(oracle_known 0)" for m in TERM}, [cases[i] for i in read_cases])
-    hit_cases = [cases[read_cases[j]] for j in anyhit]
-    if hit_cases:
-        for code, text in KNOWN.items():
-            hit, _ = eval_bool("framecodec_known%d" % code, {m: "(oracle_known %d)" % code for m in TERM}, hit_cases)
-            if hit:
-                known[code] = len(hit)
-                rep.known(text)
+    for c in cases:
+        if c["mode"] in READ_MODES:
+            for code in py_deviations(c):
+                known[code] = known.get(code, 0) + 1
+    for code in sorted(known):
+        rep.known(KNOWN[code])
     rep.oracle_runs.append({"name": "framecodec-reference-oracle", "cases": len(cases),
                             "nontrivial": sum(1 for c in cases if is_nontrivial(c)),
                             "failures": len(bad) + len(chunk_bad), "known_deviation_hits": known,
@@ -471,9 +520,9 @@ if __name__ == "__main__":
     seed = sys.argv[2] if len(sys.argv) > 2 else "1"
     t0 = time.time()
     rep = common.Report("C12", tier, seed)
-    cases = correspond_framecodec(rep, tier, seed)
+    correspond_framecodec(rep, tier, seed)
     t1 = time.time()
-    nbad = search_framecodec(rep, tier, seed, cases=None if tier != "quick" else cases)
+    nbad = search_framecodec(rep, tier, seed)
     t2 = time.time()
     c = rep.correspondences[0]
     print(json.dumps({"cases": c["cases"], "nontrivial": c["nontrivial"], "disagreements": c["disagreements"],
